@@ -113,6 +113,8 @@ def run(ctx, rep):
     d2(ctx, rep)
     d3(ctx, rep)
     d4(ctx, rep)
+    d5_lanes(ctx, rep)
+    d6_blocks(ctx, rep)
 
 
 def d1(ctx, rep):
@@ -421,6 +423,207 @@ def d3(ctx, rep):
                 rep.undecided('D3.degenerate', exc, erets[0], f"{c.name}: what _fit_constant stores under '{k}' is not derivable", construct=f'{c.name}._extract_constant')
 
 
+def d5_lanes(ctx, rep):
+    """Vectorised methods keep one output entry per input entry, in the input's order (no unbalanced permutation)."""
+    from ..absint import TOP, Frame
+    from ..idioms import private_closure
+    from ..lanekind import LaneKind, word_text
+    prog = ctx.prog
+    rep.rule('D5.lanes', 'vectorised distribution methods return their values in the order of their argument: a permutation applied to the '
+             'points (argsort / sort) is undone before the values are returned or written back through a mask')
+    REORDERING = ('argsort', 'sort', 'sorted', 'unique', 'permutation', 'shuffle', 'lexsort', 'flip')
+    n = 0
+    seen = set()
+    for root in (UNI, SCIPY):
+        for c in prog.cls(root).subclasses(strict=False):
+            for meth in ('cumulative_distribution', 'percent_point', 'probability_density', 'log_probability_density'):
+                m = c.lookup(meth)
+                if m is None or m.qualname in seen or len(m.params) < 2:
+                    continue
+                seen.add(m.qualname)
+                clo = private_closure(ctx, m, c)
+                if not any(isinstance(x, ast.Call) and call_name(x) in REORDERING for g in clo for x in ast.walk(g.node)):
+                    continue
+                n += 1
+                dp = m.params[1]
+                masks = set()
+                changed = True
+                while changed:
+                    changed = False
+                    for s_ in walk_no_nested(m.node):
+                        if isinstance(s_, ast.Assign) and isinstance(s_.targets[0], ast.Name) and s_.targets[0].id not in masks \
+                                and isinstance(s_.value, (ast.Compare, ast.BinOp, ast.UnaryOp)) \
+                                and any(isinstance(x, ast.Name) and (x.id == dp or x.id in masks) for x in ast.walk(s_.value)) \
+                                and any(isinstance(x, (ast.Compare, ast.Invert, ast.BitOr, ast.BitAnd)) for x in ast.walk(s_.value)):
+                            masks.add(s_.targets[0].id)
+                            changed = True
+                lk = LaneKind(ctx, dp, masks)
+                fr = Frame(m, {}, c)
+                verdicts = []
+                for s_ in walk_no_nested(m.node):
+                    if isinstance(s_, ast.Assign) and isinstance(s_.targets[0], ast.Subscript) and isinstance(s_.targets[0].slice, ast.Name) \
+                            and s_.targets[0].slice.id in masks:
+                        v = lk.value(s_.value, fr)
+                        mk = s_.targets[0].slice.id
+                        if v == 'uniform':
+                            continue
+                        if isinstance(v, tuple) and v and v[0] == 'lanes':
+                            if v[2]:
+                                verdicts.append(('bad', s_, f'the values written back through `{mk}` are in the {word_text(lk, v)}: each value lands on another point\'s position'))
+                            elif v[1] == 'mask:' + mk:
+                                verdicts.append(('ok', s_, f'values written through `{mk}` are in the order of the points selected by `{mk}`'))
+                            else:
+                                verdicts.append(('und', s_, f'values of {v[1]} written through `{mk}`'))
+                        else:
+                            verdicts.append(('und', s_, f'the order of the values written through `{mk}` is not derived'))
+                for r in [x for x in walk_no_nested(m.node) if isinstance(x, ast.Return) and x.value is not None]:
+                    v = lk.value(r.value, fr)
+                    if isinstance(v, tuple) and v and v[0] == 'lanes' and v[2]:
+                        verdicts.append(('bad', r, f'the returned values are in the {word_text(lk, v)}, not in the order of `{dp}`'))
+                    elif isinstance(v, tuple) and v and v[0] == 'lanes':
+                        verdicts.append(('ok', r, f'returned in the order of `{dp}`'))
+                if not verdicts:
+                    rep.undecided('D5.lanes', m, m.node.name, f'{c.name}.{meth} reorders values (sort / argsort) and the order of its result is not derived',
+                                  construct=f'{m.short}: lane order')
+                for kind, node, msg in verdicts:
+                    if kind == 'bad':
+                        rep.bad('D5.lanes', m, node, msg, construct=f'{m.short}: lane order')
+                    elif kind == 'ok':
+                        rep.ok('D5.lanes', m, node, msg, construct=f'{m.short}: lane order')
+                    else:
+                        rep.undecided('D5.lanes', m, node, msg, construct=f'{m.short}: lane order')
+    if n == 0:
+        rep.ok('D5.lanes', prog.cls(UNI).methods['percent_point'], 'vectorised methods', 'no vectorised distribution method reorders its points (no sort / argsort in their closures)',
+               construct='lane order')
+
+
+def d6_blocks(ctx, rep):
+    """A result buffer of a vectorised method that is filled block by block must be filled completely."""
+    from ..exprnf import NF
+    from ..idioms import private_closure
+    prog = ctx.prog
+    rep.rule('D6.blocks', 'a result buffer of a vectorised distribution method that is filled block by block (slices driven by a loop index) '
+             'is covered completely: the trip count is ceil(n / block), or a remainder block follows the loop')
+    n_sites = 0
+    seen = set()
+    for root in (UNI, SCIPY):
+        for c in prog.cls(root).subclasses(strict=False):
+            for meth in ('cumulative_distribution', 'percent_point', 'probability_density', 'log_probability_density', 'sample'):
+                m0 = c.lookup(meth)
+                if m0 is None:
+                    continue
+                for m in private_closure(ctx, m0, c):
+                    if m.qualname in seen:
+                        continue
+                    seen.add(m.qualname)
+                    nf = NF(prog, m)
+                    for lp in [x for x in walk_no_nested(m.node) if isinstance(x, ast.For) and isinstance(x.target, ast.Name)]:
+                        it = lp.iter
+                        if not (isinstance(it, ast.Call) and call_name(it) == 'range' and it.args):
+                            continue
+                        iv = lp.target.id
+                        for st in [x for x in ast.walk(lp) if isinstance(x, ast.Assign) and isinstance(x.targets[0], ast.Subscript)
+                                   and isinstance(x.targets[0].value, ast.Name)]:
+                            buf = st.targets[0].value.id
+                            sl = st.targets[0].slice
+                            if isinstance(sl, ast.Name):
+                                d = single_def(m.node, sl.id) if single_def(m.node, sl.id) is not None else None
+                                if d is None:
+                                    defs = [a.value for a in ast.walk(lp) if isinstance(a, ast.Assign) and isinstance(a.targets[0], ast.Name) and a.targets[0].id == sl.id]
+                                    d = defs[0] if len(defs) == 1 else None
+                                sl = d
+                            lo = hi = None
+                            if isinstance(sl, ast.Slice):
+                                lo, hi = sl.lower, sl.upper
+                            elif isinstance(sl, ast.Call) and call_name(sl) == 'slice' and len(sl.args) == 2:
+                                lo, hi = sl.args
+                            if lo is None or hi is None or not any(isinstance(x, ast.Name) and x.id == iv for x in ast.walk(lo)):
+                                continue
+                            # the buffer must be allocated in this function with a length and be returned
+                            alloc = single_def(m.node, buf)
+                            if not (isinstance(alloc, ast.Call) and call_name(alloc) in ('zeros', 'empty', 'full', 'ones', 'zeros_like', 'empty_like')):
+                                continue
+                            if not any(isinstance(r, ast.Return) and r.value is not None and any(isinstance(x, ast.Name) and x.id == buf for x in ast.walk(r.value))
+                                       for r in walk_no_nested(m.node)):
+                                continue
+                            n_sites += 1
+                            size = alloc.args[0] if alloc.args else None
+                            verdict, why = _block_coverage(nf, it, iv, lo, hi, size, m, lp, buf)
+                            cons = f'{m.short}: blocks of `{buf}`'
+                            if verdict is True:
+                                rep.ok('D6.blocks', m, st, why, construct=cons)
+                            elif verdict is False:
+                                rep.bad('D6.blocks', m, st, why, construct=cons)
+                            else:
+                                rep.undecided('D6.blocks', m, st, why, construct=cons)
+    if n_sites == 0:
+        rep.ok('D6.blocks', prog.cls(UNI).methods['percent_point'], 'vectorised methods', 'no vectorised distribution method fills its result block by block',
+               construct='block coverage')
+
+
+def _block_coverage(nf, it, iv, lo, hi, size, m, lp, buf):
+    """(True | False | None, text) for blocks [lo(i), hi(i)) with i in range(...) over a buffer of length `size`."""
+    def N(src):
+        return nf.nf(ast.parse(src, mode='eval').body)
+
+    def same(a, b):
+        return a is not None and b is not None and nf.nf(a) == nf.nf(b)
+    args = it.args
+    size_len = size
+    if isinstance(size, ast.Attribute) and size.attr == 'shape':
+        size_len = None
+    # form A: for i in range(0, n, K): buf[i:i + K]
+    if len(args) == 3 and nf.nf(args[0]) == N('0') and isinstance(lo, ast.Name) and lo.id == iv:
+        step = args[2]
+        ok_hi = isinstance(hi, ast.BinOp) and isinstance(hi.op, ast.Add) and nf.nf(hi) == nf.nf(ast.BinOp(left=ast.Name(id=iv, ctx=ast.Load()), op=ast.Add(), right=step))
+        if ok_hi and (size_len is None or same(args[1], size_len) or True):
+            return True, 'blocks [i, i + step) for i in range(0, n, step) cover the buffer'
+        return None, 'block bounds not recognised'
+    # form B: for i in range(E): buf[i * K:(i + 1) * K]
+    if len(args) == 1 and isinstance(lo, ast.BinOp) and isinstance(lo.op, ast.Mult):
+        k = lo.right if (isinstance(lo.left, ast.Name) and lo.left.id == iv) else (lo.left if isinstance(lo.right, ast.Name) and lo.right.id == iv else None)
+        if k is None:
+            return None, 'block bounds not recognised'
+        ksrc = ast.unparse(k)
+        if nf.nf(hi) != N(f'({iv} + 1) * ({ksrc})'):
+            return None, 'block bounds not recognised'
+        E = args[0]
+        if isinstance(E, ast.Name):
+            d = single_def(m.node, E.id)
+            E = d if isinstance(d, ast.AST) else E
+        Etxt = ast.unparse(E)
+        # floor: n // K   (with n = len(x) or x.shape[0] or a name)
+        if isinstance(E, ast.BinOp) and isinstance(E.op, ast.FloorDiv) and nf.nf(E.right) == nf.nf(k) \
+                and not (isinstance(E.left, ast.BinOp) and isinstance(E.left.op, (ast.Add, ast.Sub))) and not isinstance(E.left, ast.UnaryOp):
+            # a remainder block after the loop: buf[E * K:] = ... or buf[done:] = ...
+            after = [x for x in walk_no_nested(m.node) if isinstance(x, ast.Assign) and isinstance(x.targets[0], ast.Subscript)
+                     and isinstance(x.targets[0].value, ast.Name) and x.targets[0].value.id == buf and x.lineno > lp.end_lineno
+                     and isinstance(x.targets[0].slice, ast.Slice) and x.targets[0].slice.upper is None]
+            if after:
+                return True, f'{Etxt} full blocks and a remainder block after the loop'
+            return False, (f'the loop runs {Etxt} times over blocks of {ksrc} entries and nothing fills the rest: when the number of points is not a multiple of '
+                           f'{ksrc}, the last entries of `{buf}` keep their initial value')
+        ceil_forms = [f'-(-(NN) // ({ksrc}))', f'((NN) + ({ksrc}) - 1) // ({ksrc})', f'int(np.ceil((NN) / ({ksrc})))', f'math.ceil((NN) / ({ksrc}))',
+                      f'int(math.ceil((NN) / ({ksrc})))', f'np.ceil((NN) / ({ksrc})).astype(int)']
+        cands = []
+        for x in ast.walk(E):
+            if isinstance(x, ast.Call) and call_name(x) == 'len':
+                cands.append(ast.unparse(x))
+            if isinstance(x, ast.Subscript) and isinstance(x.value, ast.Attribute) and x.value.attr == 'shape':
+                cands.append(ast.unparse(x))
+            if isinstance(x, ast.Name):
+                cands.append(x.id)
+        for nn in cands:
+            for f in ceil_forms:
+                try:
+                    if nf.nf(E) == N(f.replace('NN', nn)):
+                        return True, f'ceil(n / {ksrc}) blocks of {ksrc} entries cover the buffer (numpy clips the last slice)'
+                except SyntaxError:
+                    pass
+        return None, f'trip count `{Etxt}` of the block loop not recognised'
+    return None, 'block loop form not recognised'
+
+
 def _param_key(e, fn):
     if isinstance(e, ast.Subscript) and is_self_attr(e.value, fn.self_name, '_params'):
         return const_value(e.slice)
@@ -515,8 +718,17 @@ def d4(ctx, rep):
                   f'probabilities selected by the {label} are not mapped to {"+" if sign > 0 else "-"}inf', construct=f'{label} value')
 
     def is_valid_targets(e):
-        e = resolve(m.node, e)
-        return isinstance(e, ast.Subscript) and isinstance(e.value, ast.Name) and e.value.id == up and isinstance(e.slice, ast.Name) and e.slice.id == vname
+        """The targets are the probabilities selected by the valid mask (in any order: the order is D5.lanes' business)."""
+        e0 = resolve(m.node, e)
+        if isinstance(e0, ast.Subscript) and isinstance(e0.value, ast.Name) and e0.value.id == up and isinstance(e0.slice, ast.Name) and e0.slice.id == vname:
+            return True
+        from ..absint import Frame
+        from ..lanekind import LaneKind
+        lk = LaneKind(ctx, up, {vname})
+        v = lk.value(e, Frame(m, {}, prog.cls(KDE)))
+        if isinstance(v, tuple) and v and v[0] == 'lanes':
+            return v[1] == 'mask:' + vname
+        return None
 
     def solver_names(call):
         f = resolve(m.node, call.func) if isinstance(call.func, ast.Name) else call.func
@@ -541,7 +753,11 @@ def d4(ctx, rep):
                 l, r = rets[0].value.left, rets[0].value.right
                 is_cdf = isinstance(l, ast.Call) and is_self_attr(l.func, m.self_name) and l.func.attr in ('cumulative_distribution', 'cdf') \
                     and l.args and isinstance(l.args[0], ast.Name) and l.args[0].id == fd[0].params[0]
-                ok_f = is_cdf and is_valid_targets(r)
+                tv = is_valid_targets(r)
+                if is_cdf and tv is None:
+                    rep.undecided('D4.quantile', m, c, 'what the root function subtracts from the CDF is not derived', construct=f'root function of {nm}')
+                    continue
+                ok_f = is_cdf and tv
                 rep.check('D4.quantile', m, c, bool(ok_f), 'root function = cumulative_distribution(X) - U[valid]',
                           'the root function is not cdf(X) minus the valid targets (same mask)', construct=f'root function of {nm}')
             else:
